@@ -249,6 +249,12 @@ def run_case(op, a):
         return "|".join(f"{n.name}<-{n.source.sql()}<-{n.expression.sql()}" for n in node.walk())
     if op == "simplify":
         return simplify(parse_one(a["sql"])).sql()
+    if op == "tsort":
+        from sqlglot.helper import tsort
+        try:
+            return ",".join(tsort({k: set(v) for k, v in a["dag"]}))
+        except ValueError:
+            return "cycle"
     if op in ("cnf", "dnf"):
         return normalize(parse_one(a["sql"]), dnf=op == "dnf", max_distance=200).sql()
     raise ValueError(op)
@@ -311,6 +317,11 @@ def build_cases(chk, n_pred, n_query, n_stmt):
     rng = chk.rng
     dialects = c14.all_dialects()
     cases = []
+    for i in range(max(6, n_pred // 4)):
+        nn = rng.randint(3, 9)
+        dag = [[f"n{v:02d}", [f"n{w:02d}" for w in range(nn + 2) if w != v and rng.random() < 0.25 and (w < v or w >= nn)]] for v in range(nn)]
+        rng.shuffle(dag)
+        cases.append([f"tsort{i}", "tsort", {"dag": dag, "sql": "tsort " + " ".join(f"{k} <- {' '.join(v)} ;" for k, v in dag)}])
     for i in range(n_pred):
         p = g_pred(rng)
         for op in ("simplify", "cnf", "dnf"):
@@ -320,6 +331,10 @@ def build_cases(chk, n_pred, n_query, n_stmt):
         for op in ("optimize", "qualify", "annotate"):
             cases.append([f"{op}{i}", op, {"sql": q}])
         cases.append([f"lineage{i}", "lineage", {"sql": q, "col": col}])
+    for i, s in enumerate(["SELECT 1 EXCEPT SELECT 2 LIMIT 1, 2", "SELECT a FROM x UNION SELECT a FROM y ORDER BY a LIMIT 3",
+                           "SELECT a FROM x INTERSECT SELECT a FROM y ORDER BY a OFFSET 2"]):
+        cases.append([f"parsew{i}", "parse", {"sql": s, "read": None}])
+        cases.append([f"sqlw{i}", "sql", {"sql": s, "read": None, "write": "duckdb", "pretty": True}])
     for i in range(n_stmt):
         s = rng.choice(c14.GEN_SQL) if rng.random() < 0.4 else c14.g_statement(rng)
         rd, wr = rng.choice([None] + dialects), rng.choice(dialects)
@@ -356,6 +371,32 @@ def sweep(chk, cases, configs):
         if len(set(vals)) > 1:
             diffs[cid] = vals
     return diffs, outs
+
+
+def minimise_sweep_diff(case, seeds, budget_s=12.0):
+    """delta-debug the SQL of a case whose output differs between two hash seeds; every round tests all candidates of one
+    granularity in ONE pair of subprocesses"""
+    from vf.props import c14
+    cid, op, a = case
+    ts = c14.toks(a["sql"])
+    t0 = time.time()
+    while len(ts) >= 2 and time.time() - t0 < budget_s:
+        cands = []
+        size = len(ts) // 2
+        while size >= 1 and len(cands) < 160:
+            for i in range(0, len(ts), size):
+                c = ts[:i] + ts[i + size:]
+                if c:
+                    cands.append((size, c))
+            size //= 2
+        cases = [[f"m{i}", op, dict(a, sql=c14.untoks(c))] for i, (_, c) in enumerate(cands)]
+        order = list(range(len(cases)))
+        diffs, outs = sweep(None, cases, [(seeds[0], order), (seeds[1], order)])
+        hits = [i for i in order if f"m{i}" in diffs and not str(outs[0][f"m{i}"]).startswith("EXC")]
+        if not hits:
+            break
+        ts = cands[hits[0]][1]  # candidates are listed from the largest removal down
+    return [cid, op, dict(a, sql=c14.untoks(ts))]
 
 
 def abstract_sql(sql):
@@ -404,6 +445,23 @@ def reuse_checks(chk, budget_s):
                              {"dialect": d or "", "class": cls})
 
     ALIAS_SQL = ["SELECT * FROM t AS (a, b)", "SELECT * FROM (SELECT 1) AS (a)", "SELECT * FROM UNNEST(x) AS (a)"]
+    # witness templates first (Properties/C15.lean generator_next_name_counterexample)
+    for sql in ALIAS_SQL:
+        tree = sqlglot.parse_one(sql)
+        g0 = Dialect.get_or_raise(None).generator()
+        g0.generate(tree)
+        a, b = Dialect.get_or_raise(None).generator().generate(tree), g0.generate(tree)
+        n += 1
+        if a != b:
+            report("Generator", sql, None, a, b, "(second call on the same object)")
+    bq = Dialect.get_or_raise("bigquery")
+    pp = bq.parser()
+    for sql in ["FROM t |> SELECT a |> WHERE a > 1", "FROM t |> AGGREGATE SUM(a) AS s GROUP BY b |> ORDER BY s", "FROM t |> SELECT a |> WHERE a > 1"]:
+        a = attempt(lambda: [c14.dump_tree(t) for t in bq.parser().parse(bq.tokenize(sql), sql)])
+        b = attempt(lambda: [c14.dump_tree(t) for t in pp.parse(bq.tokenize(sql), sql)])
+        n += 1
+        if a != b:
+            report("Parser", sql, "bigquery", a, b, "(pipe syntax: per-call CTE counter)")
     while time.time() - t0 < budget_s and len(chk.violations) < 3:
         d = rng.choice(dialects)
         dia = Dialect.get_or_raise(d)
@@ -497,9 +555,23 @@ def search(chk, hints, budget_s):
         # confirm in isolation: the single case under the two hash seeds
         solo, _ = sweep(chk, [by_id[cid]], [(configs[0][0], [0]), (configs[first][0], [0])])
         why = "hash-seed" if solo else ("history/order" if same_seed_other_order or not solo else "hash-seed")
-        chk.report_violation(f"nondeterministic:{op}:{why}:{abstract_sql(a['sql'])}",
+        small = by_id[cid]
+        if solo and op != "tsort":
+            small = minimise_sweep_diff(by_id[cid], [configs[0][0], configs[first][0]])
+        skeleton = abstract_sql(small[2]["sql"]) if op != "tsort" else f"dag({len(a['dag'])} nodes)"
+        if op == "parse":
+            # a tree whose only difference is the insertion order of two args is identified by those arg names
+            try:
+                da, db = json.loads(vals[0]), json.loads(vals[first])
+                j = next(i for i, (x, y) in enumerate(zip(da, db)) if x != y)
+                ka, kb = da[j].get("k"), db[j].get("k")
+                if ka and kb and ka != kb and len(da) == len(db):
+                    skeleton = "args-order:" + "|".join(sorted({ka, kb}))
+            except Exception:  # noqa
+                pass
+        chk.report_violation(f"nondeterministic:{op}:{why}:{skeleton}",
                              f"{op} output differs between runs (PYTHONHASHSEED {configs[0][0]} vs {configs[first][0]}, {why})",
-                             {"kind": "sweep", "case": by_id[cid], "hashseeds": [configs[0][0], configs[first][0]],
+                             {"kind": "sweep", "case": small, "original": by_id[cid][2]["sql"], "hashseeds": [configs[0][0], configs[first][0]],
                               "orders_differ": True, "outputs": [str(vals[0])[:300], str(vals[first])[:300]], "isolated_repro": bool(solo)},
                              {"op": op, "why": why})
     n, found = reuse_checks(chk, max(4.0, budget_s - (time.time() - t0)))
